@@ -83,6 +83,31 @@ Theorem C20_interval_rejects_number_overflow :
 Proof. exact interval_str_rejects_overflow. Qed.
 Print Assumptions C20_interval_rejects_number_overflow.
 
+(* a number followed by any character that is not a digit, white space or an ASCII letter is
+   rejected whatever comes after: fractions ("1.5kb", "1,5 kb"), signs, symbols, non-ASCII
+   look-alikes.  Instances: fractional and negative numbers. *)
+Theorem C20_rejects_nonletter_tail :
+  forall ds c rest,
+    all_digits ds -> is_digit c = false -> is_ws c = false -> ~ (97 <= lower c <= 122) ->
+    parse_size_str (ds ++ c :: rest) = None /\ parse_interval_str (ds ++ c :: rest) = None.
+Proof.
+  intros ds c rest Hd Hc Hw Hn.
+  exact (conj (size_str_rejects_nonletter_tail ds c rest Hd Hc Hw Hn)
+              (interval_str_rejects_nonletter_tail ds c rest Hd Hc Hw Hn)).
+Qed.
+Print Assumptions C20_rejects_nonletter_tail.
+
+Theorem C20_rejects_fraction :
+  forall ds rest, all_digits ds ->
+    parse_size_str (ds ++ 46 :: rest) = None /\ parse_interval_str (ds ++ 46 :: rest) = None.
+Proof. exact rejects_fraction. Qed.
+Print Assumptions C20_rejects_fraction.
+
+Theorem C20_rejects_negative :
+  forall rest, parse_size_str (45 :: rest) = None /\ parse_interval_str (45 :: rest) = None.
+Proof. exact rejects_negative. Qed.
+Print Assumptions C20_rejects_negative.
+
 (* integer scalars: bytes / seconds when representable, rejected when negative or
    too wide; floats are rejected; no result ever lies outside u64 / i64 *)
 Theorem C20_int_forms :
